@@ -61,7 +61,7 @@ def handle (op : String) (args : List String) : Option String :=
     let l := showLossless "L" (Lossless.fromStr strict s) path
     let r := showLossless "R" (Lossless.fromStrRelaxed (fun _ => paras) s) path
     let y := showLossy "Y" (Lossy.fromStr strict s) path
-    -- no open finding for C17: nothing is appended (F-C17-1, F-C17-2 are fixed)
+    -- no open finding for C17: nothing is appended (F-C17-1, F-C17-2, F-C17-3 are fixed)
     pure s!"{l} {r} {y}"
   | _, _ => none
 
